@@ -44,12 +44,16 @@ pub struct Scenario {
     pub trials: Vec<Trial>,
     /// every k of the first render was enumerated
     pub exhaustive_k: bool,
+    /// `Some(n)`: the simulated pool has n worker threads and one queue (rayon-like: a blocked task
+    /// keeps its worker) instead of one thread per task
+    #[serde(default)]
+    pub bounded_workers: Option<usize>,
 }
 
 pub fn digest(sc: &Scenario) -> u64 {
     let mut h = crate::harness::Fnv::new();
     h.write(&sc.case.bytes);
-    h.write(format!("{:?}{}", sc.trials, sc.shuttle_pool).as_bytes());
+    h.write(format!("{:?}{}{:?}", sc.trials, sc.shuttle_pool, sc.bounded_workers).as_bytes());
     h.finish()
 }
 
@@ -75,7 +79,7 @@ mod imp {
     use crate::checks::shuttle_rt::*;
     use crate::jxlgen::random::{GenConfig, random_program};
     use crate::observe::RenderObs;
-    use crate::pool::sched::ShuttlePool;
+    use crate::pool::sched::{BoundedGuard, BoundedPool, ShuttlePool};
     use crate::rng::{Rng, derive};
     use crate::simio::{ChunkSchedule, StorageFault};
     use jxl_oxide::{AllocTracker, CropInfo, JxlThreadPool};
@@ -140,7 +144,9 @@ mod imp {
             let partial_variant = rng.below(4) as u8;
             trials.push(Trial { plan, first_keyframe: rng.below(nkey_guess) as usize, post: post_ops(&mut rng, nkey_guess as usize), partial_cut, partial_variant });
         }
-        Scenario { case, corrupt, shuttle_pool: !fixture && rng.chance(1, 3), trials, exhaustive_k }
+        let shuttle_pool = !fixture && rng.chance(1, 3);
+        let bounded_workers = (shuttle_pool && rng.chance(1, 2)).then(|| rng.usize_in(1, 2));
+        Scenario { case, corrupt, shuttle_pool, trials, exhaustive_k, bounded_workers }
     }
 
     fn viol(seed: u64, sc: &Scenario, class: String, detail: String) -> Violation {
@@ -228,12 +234,17 @@ mod imp {
                 let reference = reference.clone();
                 let trial = trial.clone();
                 let shuttle_pool = sc.shuttle_pool;
+                let bounded = sc.bounded_workers;
                 run_once(&it, move || {
                     let tracker = AllocTracker::with_limit(AMPLE);
-                    let spool = shuttle_pool.then(|| ShuttlePool::new(2));
-                    let pool = match &spool {
-                        Some(p) => JxlThreadPool::verif(p.clone() as Arc<dyn jxl_threadpool::verif::VerifPool>),
-                        None => JxlThreadPool::none(),
+                    let spool = (shuttle_pool && bounded.is_none()).then(|| ShuttlePool::new(2));
+                    let bpool = bounded.filter(|_| shuttle_pool).map(BoundedPool::new);
+                    // declared before the image: dropped (workers shut down) after it, on every path
+                    let _bguard = bpool.clone().map(BoundedGuard);
+                    let pool = match (&spool, &bpool) {
+                        (Some(p), _) => JxlThreadPool::verif(p.clone() as Arc<dyn jxl_threadpool::verif::VerifPool>),
+                        (_, Some(b)) => JxlThreadPool::verif(b.clone() as Arc<dyn jxl_threadpool::verif::VerifPool>),
+                        _ => JxlThreadPool::none(),
                     };
                     // the stream is fed fault-free first (completely, or up to the cut for a partial
                     // trial): C08 is about a failing *render*
@@ -285,6 +296,9 @@ mod imp {
                         if let Some(p) = &spool {
                             p.join_detached();
                         }
+                        if let Some(b) = &bpool {
+                            b.join_detached();
+                        }
                         return;
                     }
                     let nkey = img.num_loaded_keyframes();
@@ -331,6 +345,9 @@ mod imp {
                     }
                     if let Some(p) = &spool {
                         p.join_detached();
+                    }
+                    if let Some(b) = &bpool {
+                        b.join_detached();
                     }
                 })
             };
